@@ -3,7 +3,7 @@ import common, refcbor
 
 BUF = 2048
 THEOREMS = ["C06_op", "C06_sequence", "C06_flushed", "C06_nonvacuous"]
-EXTRA_PROPERTY_FILES = ("Properties_format",)   # obligations over the regenerated Gen_format.v (translator/format.py)
+EXTRA_PROPERTY_FILES = ("Properties_format", "Properties_encoder")   # obligations over the regenerated Gen_format.v / Gen_encoder.v (translator/format.py, encoder.py)
 BOUNDS = [0, 1, 23, 24, 255, 256, 65535, 65536, 2**32 - 1, 2**32, 2**63 - 1, 2**63, 2**64 - 1]
 
 def spec(op):
